@@ -134,6 +134,47 @@ func (q *queueA) answerOf(in ssa.Instruction) ssa.Value {
 	return fa.X
 }
 
+// eventLoopFuncs: the code that runs on the event loop's goroutine as far as it lives in the
+// loop's own package: the loop function, its closures, and the package's functions it calls or
+// hands on as function values (a sweep passed to a synchronous iteration helper).
+func eventLoopFuncs(run *ssa.Function) []*ssa.Function {
+	seen := map[*ssa.Function]bool{}
+	var out []*ssa.Function
+	var add func(f *ssa.Function)
+	samePkg := func(f *ssa.Function) bool {
+		a, b := f, run
+		for a.Parent() != nil {
+			a = a.Parent()
+		}
+		return a.Package() != nil && a.Package() == b.Package()
+	}
+	add = func(f *ssa.Function) {
+		if f == nil || f.Blocks == nil || seen[f] || !samePkg(f) {
+			return
+		}
+		seen[f] = true
+		out = append(out, f)
+		for _, a := range f.AnonFuncs {
+			add(a)
+		}
+		eachInstr(f, func(in ssa.Instruction) {
+			if _, isGo := in.(*ssa.Go); isGo {
+				return // another goroutine
+			}
+			for _, op := range in.Operands(nil) {
+				if op == nil || *op == nil {
+					continue
+				}
+				if g, ok := (*op).(*ssa.Function); ok {
+					add(g)
+				}
+			}
+		})
+	}
+	add(run)
+	return out
+}
+
 func isHeapCall(in ssa.Instruction, method string) (*ssa.CallCommon, bool) {
 	c := plainCall(in)
 	if c == nil {
@@ -769,7 +810,7 @@ func c11NoBlock(w *World, r *Report, q *queueA) {
 			}
 		})
 	}
-	for _, fn := range withClosures(q.Run) {
+	for _, fn := range eventLoopFuncs(q.Run) {
 		eachInstr(fn, func(in ssa.Instruction) {
 			switch x := in.(type) {
 			case *ssa.Send:
